@@ -157,6 +157,19 @@ func (n *nswDesc) genG2(rng *rand.Rand, quick bool) []*g2Case {
 	return out
 }
 
+// g2Sentinel marks the G2 classes every run executes.
+func g2Sentinel(c *g2Case) bool {
+	switch c.Op {
+	case "ScalarMulBase":
+		return c.Class == "s=0" || c.Class == "s=1" || c.Class == "s=2" || c.Class == "s=r-1" || c.Class == "s=3"
+	case "ScalarMul":
+		return c.Class == "s=0,P=random" || c.Class == "s=1,P=random" || c.Class == "s=r-1,P=random" || c.Class == "s=0,P=inf" || c.Class == "s=1,P=inf"
+	case "AddUnified":
+		return c.Class == "P+P" || c.Class == "P+-P" || c.Class == "inf+inf" || c.Class == "P+inf" || c.Class == "inf+P" || c.Class == "P+Q"
+	}
+	return false
+}
+
 func judgeG2(r *vcore.Run, c *g2Case, o outcome) {
 	fam := "sw_" + c.Curve + ".G2." + c.Op
 	mode := "incomplete"
